@@ -17,6 +17,7 @@ RULE = ('three Hypothesis sub-checks.  airtovac/vactoair: wavelengths 100 A .. 3
         'constant c -> c in every overlapped band and 0 elsewhere, within min/max of the flux, independent of masked pixel values.  '
         'Non-trivial: array straddling 2000 A; Quantity in nm/um; mask run inside a band.')
 RULE += '  Also: integer wavelength arrays, mask flag values 1/-1/7/INT32_MIN, spectra touching a band by a fraction of an Angstrom (a constant must give c or exactly 0 in every band).'
+RULE += ' Round 5: grids linear in wavelength (100-11000 A); int16/int32/uint16/uint32 wavelength arrays.'
 ASSUMPTIONS = ['wavelengths within 1e-12 relative of the 2000 A threshold may be treated as either side (unit conversion rounding)',
                'float32 arrays are compared at float32 resolution (4 ulp), everything else at 1e-6 Angstrom',
                'filter_thru tolerances: linearity / constants 1e-9 relative; a band counts as overlapped when the wavelength image covers >= 3 pixels of non-zero response',
